@@ -361,8 +361,10 @@ def mala(
         # MALA drift term: step_size^2/2 * gradient
         drift = (step_size**2 / 2.0) * grad_val
 
-        # Gaussian noise term: step_size * N(0,1)
-        noise = step_size * normal.sample(0.0, 1.0)
+        # Gaussian noise term: step_size * N(0, I), one draw per coordinate
+        noise = step_size * normal.sample(
+            0.0, 1.0, sample_shape=jnp.shape(current_val)
+        )
 
         # Proposed value
         return current_val + drift + noise
@@ -482,13 +484,14 @@ def hmc(
     )
 
     # Helper functions for momentum
-    def sample_momentum(_):
+    def sample_momentum(reference_val):
         """Sample momentum with same structure as reference value."""
-        return normal.sample(0.0, 1.0)
+        return normal.sample(0.0, 1.0, sample_shape=jnp.shape(reference_val))
 
     def assess_momentum(momentum_val):
         """Compute log probability of momentum (standard normal)."""
-        return normal.logpdf(momentum_val, 0.0, 1.0)
+        # Sum over all coordinates to get a scalar log probability
+        return jnp.sum(normal.logpdf(momentum_val, 0.0, 1.0))
 
     # Initial model score (negative potential energy)
     prev_model_score = log_density_wrt_selected(selected_choices)
